@@ -4,7 +4,7 @@ Decided statically: the loop-object accounting (balance of the counters the
 exit test reads, on all paths incl. failure paths), who writes them, and the
 placement of the exit test.  Not decided: progress per wake-up.
 """
-from ..core import (AnalysisBroken, Inliner, canon, strip, evloc, lvalue_steps, lvalue_root,
+from ..core import (names_of, same_value, AnalysisBroken, Inliner, canon, strip, evloc, lvalue_steps, lvalue_root,
                     last_member, norm_cond, walk, relpath)
 from ..analyses import (delta_analysis, is_fail, is_success, is_call, loops, innermost_loop,
                         edge_dominates, path_to, describe)
@@ -228,7 +228,7 @@ def auto_unregister(ctx, covered):
             raise AnalysisBroken('iv_run_timers: expired-batch add is not in a loop')
         obj = canon(strip(strip(a['args'][0])['e'])['base'])
         def is_unreg(e, obj=obj):
-            return is_call(e, 'iv_timer_unregister') and canon(e['args'][0]) == obj
+            return is_call(e, 'iv_timer_unregister') and obj in names_of(e['args'][0])
         mp = _must_since_block(f, h, lps[h], is_unreg)
         ctx.ob('R-C07b.auto', 'iv_run_timers:expire', bool(mp.get((a['_b'], a['_i']))), loc=a['loc'],
                detail='iv_timer_unregister(%s) precedes the move to the expired batch in the same iteration' % obj, fn=f.q)
